@@ -192,11 +192,14 @@ func decodeCSRFCookie(cookie *http.Cookie, opts *options.Cookie) (*csrf, error) 
 	}
 
 	// Valid cookie, Unmarshal the CSRF
-	csrf := &csrf{cookieOpts: opts}
+	csrf := &csrf{}
 	err = msgpack.Unmarshal(decrypted, csrf)
 	if err != nil {
 		return nil, fmt.Errorf("error unmarshalling data to CSRF: %v", err)
 	}
+	// Set the options after unmarshalling: a payload that decodes as a
+	// msgpack nil resets the whole struct.
+	csrf.cookieOpts = opts
 
 	return csrf, nil
 }
